@@ -104,33 +104,28 @@ theorem cut_overpadded (p : Bytes) (h : ffRun p > 15) : cutPayload p = none := b
     no word, and leaves the state machine in its initial state, so the next packet is judged from
     the initial state. -/
 theorem overpadded_reported_and_reset (cfg : CheckCfg) (s : CdpSt) (off : Nat) (r : Rdh) (p : Bytes)
-    (h : ffRun p > 15) (hb : cfg.stave = false ∨ s.barrel.isSome = true ∨ (barrelOfFee r.feeId).isSome = true) :
+    (h : ffRun p > 15) (s0 : CdpSt) (h0 : setCurrentRdh cfg s off r = .ok s0) :
     ∃ s', payloadChecks cfg s off r p = .ok (s', [mkErrNoWord off "PAYLOAD"]) ∧ s'.fsm = .initialIhw := by
   unfold payloadChecks
-  simp only [cut_overpadded p h]
-  rcases hb with hb | hb | hb
-  · simp [hb]
-  · cases hbar : s.barrel with
-    | none => simp [hbar] at hb
-    | some b => simp
-  · by_cases h1 : cfg.stave = true
-    · by_cases h2 : s.barrel.isNone = true
-      · cases hbo : barrelOfFee r.feeId with
-        | none => simp [hbo] at hb
-        | some b => simp [h1, h2]
-      · simp [h2]
-    · simp [h1]
+  simp only [h0, cut_overpadded p h]
+  exact ⟨_, rfl, rfl⟩
 
 /-- every word the validator examines is an element of the cutter's output, in order: by
-    definition `payloadChecks` folds `checkWord` over `cutPayload p` -/
+    definition `payloadChecks` folds `checkWord` over `cutPayload p`, starting from the tracker
+    state `set_current_rdh` produces (word counter 0, payload position = packet offset + 64, slot
+    from the header's data format) -/
 theorem words_examined_are_cut (cfg : CheckCfg) (s : CdpSt) (off : Nat) (r : Rdh) (p : Bytes)
-    (ws : List Bytes) (hc : cutPayload p = some ws) (hb : cfg.stave = false) :
-    payloadChecks cfg s off r p =
-      checkWords cfg { s with payloadPos := off + 64, wordCount := 0,
-                              slot := if r.dataFormat == 0 then 16 else 10,
-                              startOfData := true, rdh := r } ws := by
-  unfold payloadChecks
-  simp [hc, hb]
+    (ws : List Bytes) (hc : cutPayload p = some ws) (s0 : CdpSt) (h0 : setCurrentRdh cfg s off r = .ok s0) :
+    payloadChecks cfg s off r p = checkWords cfg s0 ws ∧
+    s0.payloadPos = off + 64 ∧ s0.wordCount = 0 ∧ s0.slot = (if r.dataFormat == 0 then 16 else 10) := by
+  refine ⟨by unfold payloadChecks; simp only [h0, hc], ?_⟩
+  unfold setCurrentRdh at h0
+  simp only at h0
+  split at h0
+  · split at h0
+    · cases h0
+    · simp only [Except.ok.injEq] at h0; subst h0; exact ⟨rfl, rfl, rfl⟩
+  · simp only [Except.ok.injEq] at h0; subst h0; exact ⟨rfl, rfl, rfl⟩
 
 /-- every chunk the cutter produces has exactly 10 bytes (so the word accessors are in range) -/
 theorem cut_words_len10_v2 (p : Bytes) (ws : List Bytes) (hv : detectV0 p = false)
